@@ -1140,16 +1140,18 @@ impl ContinuityStreamCache {
                 }
             }
 
-            if found_messages >= message_limit
-                || scan.complete
-                || backscan_bytes >= MAX_BACKSCAN_BYTES
-            {
+            if found_messages >= message_limit || scan.complete {
                 selected_rev.reverse();
                 return Ok(Some(ContinuityWindow {
                     events: selected_rev,
                     from_seq,
                     from_message_id: Some(anchor_message_id.to_string()),
                 }));
+            }
+            if backscan_bytes >= MAX_BACKSCAN_BYTES {
+                // The largest window neither holds `message_limit` messages nor reaches the start
+                // of the sidecar: this cache cannot answer, callers fall back.
+                return Ok(None);
             }
 
             backscan_bytes = (backscan_bytes * 2).min(MAX_BACKSCAN_BYTES);
